@@ -687,6 +687,10 @@ class OpsMixin:
         def model_fn(new_id):
             if any(src.m.tok_of_name(n) is None for n in new.m.names()):
                 raise Expect(("ValueError",), "transfer_missing")
+            if any(new.m.name_of_tok(t) is None for t in new.m.grouping):
+                # grouped by a hidden column: outside the defined domain (DESIGN.md 12.3) - the
+                # reference source cannot name that column, so the grouping of the result is not specified
+                raise Skip("transfer of a table grouped by a hidden column")
             return self.model.transfer(new.m, src.m, new_id)
 
         def real_fn(rep, reals):
